@@ -23,6 +23,7 @@ TWINS = [
     T("html-skip-test-reordered", H, "        if self.skip_depth > 0:\n            if tag == self._skip_tag:\n                self.skip_depth += 1\n            return\n\n        if tag in REMOVE_TAGS:", "        if self.skip_depth > 0:\n            if self._skip_tag == tag:\n                self.skip_depth = self.skip_depth + 1\n            return\n\n        if tag in REMOVE_TAGS:"),
     T("html-comment-handler-documented", H, "    def handle_comment(self, data: str):\n        # Ignore comments\n        pass", "    def handle_comment(self, data: str):\n        \"\"\"Comments never reach the tree.\"\"\"\n        return None"),
     T("flush-guard-nested", HT, "            if rest and \"<\" not in rest:\n                parser.handle_data(unescape(rest))\n", "            if rest:\n                if \"<\" not in rest:\n                    parser.handle_data(unescape(rest))\n"),
+    T("remove-branch-reordered", HT, "                self.skip_depth = 1\n                self._skip_tag = tag\n", "                self._skip_tag = tag\n                self.skip_depth = 1\n"),
 ]
 
 # --- seeded changes kept under /verif/seeded (sub-agents saw only the property text); each must be reported by the named rule
@@ -36,5 +37,7 @@ SEEDED = [
     ("C17-5", "C17-SKIP"),
     ("C17-6", "C17-EOF"),
     ("C17-7", "C17-N4"),
+    ("C17-8", "C17-FRESH"),
+    ("C17-9", "C17-TREE"),
 ]
 MUTANTS = list(MUTANTS) + [_P("seed-" + sid, _os.path.join(_SEEDS, sid, "patch.diff"), rule) for sid, rule in SEEDED if _os.path.exists(_os.path.join(_SEEDS, sid, "patch.diff"))]
